@@ -970,7 +970,7 @@ def gen_plateau_locus(src, with_annotation=True, chrom="chr1"):
 
 
 def gen_long_gene_locus(src, with_annotation=True, chrom="chr1", straddle=False, x_annotated=True, n_cross=1,
-                        tail_only=False, inner_bridge=False, novel_tail=False):
+                        tail_only=False, inner_bridge=False, novel_tail=False, x_variant=False):
     """A sparsely covered gene longer than two splitting windows: 3-5 exons separated by introns of 130-170 bins
     (33-43 kb), 1-3 full-length reads that are therefore processed in >= 3 regions and assigned to the same isoform in
     each of them, short reads on single exons, optionally a pile-up on the first exon (so that depth 2-3 is still a
@@ -1037,7 +1037,15 @@ def gen_long_gene_locus(src, with_annotation=True, chrom="chr1", straddle=False,
             cx.append([a + 1, a + src.int(120, 300)])
         stx = src.choice(["+", "-"])
         xg = {"id": "X0", "chr": chrom, "strand": stx, "canon": "canon", "transcripts": [{"id": "XT0", "exons": cx}]}
-        if x_annotated:
+        if x_annotated and x_variant:
+            # X is annotated with another donor site of its first intron: the reads are an unannotated isoform of a
+            # gene that is known in both processing regions
+            alt = [list(b) for b in cx]
+            alt[0][1] -= 60
+            genes.append(dict(xg, transcripts=[{"id": "XT0", "exons": alt}]))
+            hidden_x = [dict(xg, transcripts=[{"id": "XT0n", "exons": cx}])]
+            overrides += build.splice_overrides(chrom, alt, stx)
+        elif x_annotated:
             genes.append(xg)
         else:
             hidden_x = [xg]
